@@ -105,10 +105,11 @@ def _sig(name, L, scale):
     return A.sig_array(name, L, scale)
 
 
-def make_records(w, nwin=1, factors=(1.0, 1.0, 1.0), proportional=None):
-    ns_n, ew_n, vt_n, L, dt, scale = w
+def make_records(w, nwin=1, factors=(1.0, 1.0, 1.0), proportional=None, lengths=None):
+    ns_n, ew_n, vt_n, L0, dt, scale = w
     recs = []
     for i in range(nwin):
+        L = L0 if lengths is None else lengths[i]       # windows of different length in one call
         if proportional is None:
             ns = _sig(ns_n, L, scale) + 0.01 * scale * i
             ew = _sig(ew_n, L, scale) * (1 + 0.25 * i)
@@ -170,7 +171,7 @@ COND = 1e-6     # smoothed spectra below COND * (largest raw amplitude) are roun
 def _dft_matrix(n, L):
     key = (n, L)
     if key not in _DFT_CACHE:
-        if len(_DFT_CACHE) > 3:
+        if len(_DFT_CACHE) > 6:
             _DFT_CACHE.clear()
         k = np.arange(n // 2 + 1, dtype=np.int64)[:, None]
         j = np.arange(L, dtype=np.int64)[None, :]
@@ -184,26 +185,32 @@ class Ref:
         self.n = n
         self.freq = RD.rfreq(n, dt)
         self.raw = recs_arrays          # list of (ns, ew, vt) numpy arrays (untapered)
-        L = len(recs_arrays[0][0])
-        self.L = L
-        self.taper = np.array(RT.tukey(L, tukey))
+        self.L = max(len(a[0]) for a in recs_arrays)
+        self.tukey = tukey
+        self._tapers = {}
         self.max_raw = 0.0
+
+    def _taper(self, L):
+        if L not in self._tapers:
+            self._tapers[L] = np.array(RT.tukey(L, self.tukey))
+        return self._tapers[L]
 
     bins = None     # when set: only these DFT bins are evaluated (long windows), others are 0
 
     def spec(self, x):
         if self.n < self.L:
             raise ValueError("n < L")
-        xt = np.asarray(x) * self.taper
+        L = len(x)              # every window is tapered over its own length and padded to n
+        xt = np.asarray(x) * self._taper(L)
         if self.bins is not None:
             a = np.zeros(self.n // 2 + 1)
             k = np.asarray(self.bins, dtype=np.int64)[:, None]
-            j = np.arange(self.L, dtype=np.int64)[None, :]
+            j = np.arange(L, dtype=np.int64)[None, :]
             a[self.bins] = np.abs(np.exp(-2j * np.pi * ((k * j) % self.n) / self.n) @ xt)
             # scale of the whole spectrum (Parseval bound) for the conditioning guard
             self.max_raw = max(self.max_raw, float(a.max()))
             return a
-        a = np.abs(_dft_matrix(self.n, self.L) @ xt)
+        a = np.abs(_dft_matrix(self.n, L) @ xt)
         self.max_raw = max(self.max_raw, float(a.max()))
         return a
 
@@ -309,6 +316,9 @@ def roots(tier, seed):
     for wi, w in enumerate(wins):
         for kind in ks:
             out.append(dict(window=list(w), kind=kind, wi=wi))
+    for wi, w in enumerate(wins[:2] if tier == "quick" else wins[:4]):
+        for kind in HEAVY_KINDS:
+            out.append(dict(window=list(w), kind=kind, wi=wi, unequal=True))
     return _long_roots(tier) + out
 
 
@@ -366,6 +376,17 @@ def run_root(root, ctx, tier):
     kind = root["kind"]
     L, dt = w[3], w[4]
     space, fcs_sets = config_space(L, dt, tier)
+    if root.get("unequal"):
+        # three windows of different length in ONE call, the longest first / in the middle / last
+        tag = _kind_tag(kind)
+        sub = dict(space, fft=["nopad", "default", "nopad_ortho", "n16"])
+        for lengths in ([L, L - 5, L - 2], [L - 5, L, L - 2], [L - 5, L - 2, L]):
+            for cfg in product.deviations(sub, 1):
+                ctx.count("states")
+                ctx.count("unequal_length_cases")
+                _one_case(ctx, root, dict(kind, nwin=3), tag, w, 3, cfg, fcs_sets[cfg["fcs"]], False, lengths=lengths)
+        ctx.nontrivial_case(("unequal", root["wi"], repr(kind)))
+        return
     nwin = kind.get("nwin", 2 if root["wi"] % 2 else 1)
     tag = _kind_tag(kind)
     nopad = dict(space, fft=["nopad", "nopad_ortho"])
@@ -399,14 +420,14 @@ def _arrays(recs):
     return [(r.ns.amplitude.copy(), r.ew.amplitude.copy(), r.vt.amplitude.copy()) for r in recs]
 
 
-def _one_case(ctx, root, kind, tag, w, nwin, cfg, fcs, metamorphic=True):
-    L, dt = w[3], w[4]
-    recs = make_records(w, nwin)
+def _one_case(ctx, root, kind, tag, w, nwin, cfg, fcs, metamorphic=True, lengths=None):
+    L, dt = w[3] if lengths is None else max(lengths), w[4]
+    recs = make_records(w, nwin, lengths=lengths)
     arrays = _arrays(recs)
     settings = make_settings(kind, cfg, fcs)
     res = run_process(recs, settings)
     ctx.count("transitions")
-    detail = dict(kind=kind, config=cfg, fcs=list(fcs), nwin=nwin)
+    detail = dict(kind=kind, config=cfg, fcs=list(fcs), nwin=nwin, window_lengths=lengths)
     n_after = None if settings.fft_settings is None else settings.fft_settings.get("n")
     # (ii) never truncation
     if res[0] == "ok" and (n_after is None or n_after < L):
@@ -452,7 +473,7 @@ def _one_case(ctx, root, kind, tag, w, nwin, cfg, fcs, metamorphic=True):
                       root, detail=dict(detail, fft_n=n), expected=ref.tolist(), observed=amp.tolist(),
                       explanation="curve differs from smoothed combined-horizontal / smoothed vertical amplitude "
                                   "spectrum of the tapered zero-padded window")
-    if not cfg["fft"].startswith("nopad") or not metamorphic:
+    if not cfg["fft"].startswith("nopad") or not metamorphic or lengths is not None:
         return      # metamorphic claims on the cheap path, low-deviation cases
     # (iii) metamorphic claims (fresh settings with the same resolved FFT length)
     def again(factors=(1.0, 1.0, 1.0), proportional=None, kind2=None):
